@@ -22,7 +22,10 @@ pick is busy (borrowing blocks 2 s, longer than the speculative delay) or fails 
 (that host is given up, the first healthy later host answers; NoHostAvailable only without one, listing every plan host).
 A fifth family judges the fetch of the SECOND page of a paged result (load-balanced and host=-targeted): page 1 is served
 healthily, the pool states apply to the page-2 fetch (for host= they are produced between the pages, including a pool
-that disappears); the reference per fetch is the same plan walk (plan rebuilt per fetch; targeted: that host only).  Oracle: the hosts that received
+that disappears); the reference per fetch is the same plan walk (plan rebuilt per fetch; targeted: that host only).
+A sixth family executes a bound statement: one plan host answers UNPREPARED and loses its connection while the driver's
+own re-PREPARE is outstanding (state unprep_loss); it was attempted, so it must be listed when the rest of the plan is
+unusable, and a healthy later host must still be reached.  Oracle: the hosts that received
 the request (node-side trace) are exactly those a reference walk over (plan, states) visits, in that order; no host
 twice without a RETRY decision; the outcome is the first healthy host's row, or NoHostAvailable whose ``errors`` has
 an entry with a reason of the right kind for every host of the plan and which is raised only after the plan iterator
@@ -54,6 +57,7 @@ STATES = ['missing', 'shut', 'noconn', 'busy', 'sendfail', 'err_next', 'err_same
 CONTACT = '127.0.0.9'
 SPEC_STATES = ['missing', 'shut', 'noconn', 'ok']      # no 'busy' (its 2 s borrow wait would block the timer thread), no scripted errors
 SPEC_DELAY = 0.2
+REPREP_STATES = ['missing', 'shut', 'noconn', 'busy', 'sendfail', 'ok']
 
 
 def all_cases():
@@ -82,6 +86,11 @@ def all_cases():
             cases.append(('paged', seq))
     for s in STATES:
         cases.append(('pagedhost', (s,)))
+    # bound statement; one host answers UNPREPARED and loses its connection during the re-PREPARE; the rest of the plan in quiet states
+    for k in range(1, 4):
+        for pos in range(k):
+            for rest in itertools.product(REPREP_STATES, repeat=k - 1):
+                cases.append(('reprep', rest[:pos] + ('unprep_loss',) + rest[pos:]))
     return cases
 
 
@@ -97,6 +106,12 @@ def reference(order, states):
         if s == 'ok':
             arrivals.append(h)
             return arrivals, ('ok', h), reasons, decisions, nerr
+        if s == 'unprep_loss':
+            # EXECUTE answered UNPREPARED, the connection dies while the driver's own PREPARE is outstanding: the host was attempted,
+            # its error is recorded, the walk goes on
+            arrivals.append(h)
+            reasons[h] = 'connlost'
+            continue
         if s == 'err_next':
             arrivals.append(h)
             decisions.append((RETRY_NEXT_HOST, None))
@@ -123,7 +138,7 @@ def reason_kind_ok(kind, exc, err=None):
         return isinstance(exc, ConnectionException) and ('hutdown' in str(exc) or 'marked down or removed' in str(exc))
     if kind in ('noconn', 'busy'):
         return isinstance(exc, NoConnectionsAvailable)
-    if kind == 'sendfail':
+    if kind in ('sendfail', 'connlost'):
         return isinstance(exc, ConnectionShutdown)
     if kind == 'unusable':       # state after an earlier statement lost the connection: shut down or already removed
         return isinstance(exc, (ConnectionException, NoConnectionsAvailable))
@@ -168,8 +183,15 @@ def run_case(seed, mode, states):
     if 'busy' in states:
         env.conn_class.max_in_flight = rng.choice([3, 4])
     plan = Plan()
+    prepare_loss = {'armed': False, 'how': {}}
+
+    def behaviour(node, cstate, req):
+        if req['op'] == 'PREPARE' and prepare_loss['armed'] and node.address in prepare_loss['how']:
+            plan.behaviour(node, cstate, req)
+            return (prepare_loss['how'][node.address],)
+        return plan.behaviour(node, cstate, req)
     for nd in env.net.nodes.values():
-        nd.behaviour = plan.behaviour
+        nd.behaviour = behaviour
     lbp = C.make_fixed_plan_policy()
     missing_how = {}
     deferred = mode == 'pagedhost'       # the targeted host must serve page 1: its state is applied between the pages
@@ -233,7 +255,10 @@ def run_case(seed, mode, states):
                 spent.add(a)
                 down_seen[0] = True
                 continue
-            if s in ('missing', 'ok', 'err_next', 'err_same'):
+            if s == 'unprep_loss':
+                prepare_loss['how'][a] = rng.choice(['reset', 'close'])
+                env.net.nodes[a].up = False          # its one connection stays; nothing renews the pool after the loss
+            if s in ('missing', 'ok', 'err_next', 'err_same', 'unprep_loss'):
                 continue
             pool = session._pools[hosts[a]]
             if s == 'shut':
@@ -280,6 +305,11 @@ def run_case(seed, mode, states):
                 if not okpre:
                     raise Inconclusive("precondition: could not put host %s into state %s" % (a, s))
 
+        prepared = None
+        if mode == 'reprep':
+            pu = next_uid()          # prepared while every pool is still healthy (session.prepare walks the hosts itself)
+            prepared = (pu, session.prepare(uid_query(pu)))
+            env.world.settle(advance=False)
         if not deferred:
             apply_states(order)
             check_states(order)
@@ -287,24 +317,40 @@ def run_case(seed, mode, states):
         def one_statement(tag, target, order_, states_, paged=False):
             """run one statement over (order_, states_) [plan mode] or against ``target`` [host mode] and judge it.
             paged: the first page is served by a healthy host first; what is judged is the fetch of the second page."""
-            uid = next_uid()
+            uid = next_uid() if (prepared is None or tag != 'main') else prepared[0]
             arrivals, outcome, reasons, decisions, nerr = reference(order_, states_)
             if deferred:
                 reasons = dict((h_, 'unusable' if k_ == 'missing' else k_) for h_, k_ in reasons.items())
             reached = states_ if outcome[0] == 'nohost' else states_[:list(order_).index(outcome[1])]
-            if 'sendfail' in reached:
+            if 'sendfail' in reached or 'unprep_loss' in reached:
                 down_seen[0] = True
             for h_, s_ in zip(order_, reached):
-                if s_ == 'sendfail':
+                if s_ in ('sendfail', 'unprep_loss'):
                     spent.add(h_)
             errs = [errgen.make(rng.choice(C.SERVER_KINDS)) for _ in range(nerr)]
             # if the driver goes on after the decisions end, the extra arrivals are answered with errors and RETHROW
             extra = [errgen.make('overloaded') for _ in range(3)]
             from sim.scen import ECHO_COLS
             page1 = [lambda node, cstate, req, uid_: node.rows(cstate, req, ECHO_COLS, [[uid_, node.address]], 'ks', 't', paging_state=b'page-2')] if paged else []
-            plan.set(uid, page1 + [e['action'] for e in errs] + (['rows'] if outcome[0] == 'ok' else [e['action'] for e in extra]))
+            walk_acts, it_ = [], iter(errs)
+            for s_ in states_:
+                if s_ == 'err_next':
+                    walk_acts.append(next(it_)['action'])
+                elif s_ == 'err_same':
+                    walk_acts += [next(it_)['action'], next(it_)['action']]
+                elif s_ == 'unprep_loss':
+                    walk_acts.append('unprepared')
+                elif s_ == 'ok':
+                    break
+            plan.set(uid, page1 + walk_acts + (['rows'] if outcome[0] == 'ok' else [e['action'] for e in extra]))
             pol = C.make_oracle_retry_policy(script=list(decisions) + ([(C.RETRY_NEXT_HOST, None)] * 2 if target is not None else []))
             stm = SimpleStatement(uid_query(uid), retry_policy=pol, consistency_level=rng.choice(C.CLS))
+            if prepared is not None and tag == 'main':
+                stm = prepared[1].bind(())
+                stm.retry_policy = pol
+                stm.consistency_level = rng.choice(C.CLS)
+                prepare_loss['armed'] = True
+            m_wire = len(env.net.wire_log)
             n_outs = n_att = 0
             page1_problem = None
             if paged:
@@ -371,7 +417,8 @@ def run_case(seed, mode, states):
                             v.append(('hosts-not-tried-in-plan-order', 'hosts that received the request %r, reference walk %r' % (seen, arrivals)))
                 if not v:
                     att = [h.address for h in (fut.attempted_hosts if fut is not None else [])][n_att:]
-                    if sorted(att) != sorted(seen):      # the append races with the answer of a fast node: order is not promised
+                    reprepares = [q_['_node'] for q_ in env.net.wire_log[m_wire:] if q_['op'] == 'PREPARE' and q_.get('query') == uid_query(uid)]
+                    if sorted(att) != sorted(seen + reprepares):      # the append races with the answer of a fast node: order is not promised
                         v.append(('attempted-hosts-differs-from-hosts-that-received-the-request', 'attempted_hosts %r, node-side %r' % (att, seen)))
                 if not v:
                     if not outs:
@@ -630,6 +677,9 @@ def run_case(seed, mode, states):
 
         if mode == 'plan':
             v = one_statement('main', None, order, list(states))
+        elif mode == 'reprep':
+            v = one_statement('main', None, order, list(states))
+            prepare_loss['armed'] = False
         elif mode == 'paged':
             v = one_statement('main', None, order, list(states), paged=True)
         elif mode == 'pagedhost':
@@ -702,8 +752,8 @@ def run(ctx):
         for _ in range(4000):
             key = r.choices([('plan', 0), ('plan', 1), ('plan', 2), ('plan', 3), ('plan', 4), ('host', 1), ('spec', 2), ('spec', 3), ('spec', 4),
                              ('specbusy', 1), ('specbusy', 2), ('specbusy', 3), ('specbusy', 4),
-                             ('paged', 1), ('paged', 2), ('paged', 3), ('pagedhost', 1)],
-                            [1, 8, 20, 30, 40, 12, 4, 8, 10, 1, 8, 10, 8, 4, 8, 10, 12])[0]
+                             ('paged', 1), ('paged', 2), ('paged', 3), ('pagedhost', 1), ('reprep', 1), ('reprep', 2), ('reprep', 3)],
+                            [1, 8, 20, 30, 40, 12, 4, 8, 10, 1, 8, 10, 8, 4, 8, 10, 12, 2, 8, 14])[0]
             todo.append((r.randrange(1 << 30), r.choice(by_len[key])))
     else:
         w, nw = (ctx.worker or 0), max(1, ctx.nworkers)
@@ -750,6 +800,8 @@ def run(ctx):
             ctx.count("statements_judged")
             ctx.count("hosts_that_received_compared", len(q['hosts_that_received']))
             ctx.count("errors_answered_by_nodes", q.get('errors_answered', 0))
+            if 'unprep_loss' in q['states']:
+                ctx.count("statements_losing_the_connection_during_reprepare")
             if q['mode'].startswith('paged'):
                 ctx.count("second_page_fetches_judged")
             if q['mode'].endswith('host'):
@@ -778,4 +830,4 @@ def run(ctx):
                           "explicit_host_statements": 60, "state_busy": 30, "state_sendfail": 30, "state_missing": 30, "state_shut": 30,
                           "state_noconn": 30, "state_err_next": 30, "state_err_same": 30, "speculative_statements": 25,
                           "speculative_timer_while_caller_in_send_request_statements": 25,
-                          "second_page_fetches_judged": 40}
+                          "second_page_fetches_judged": 40, "statements_losing_the_connection_during_reprepare": 30}
